@@ -162,7 +162,7 @@ def clear_graveyard() -> None:
         lg.setLevel(lvl)
 
 
-def make_yielding(store: Any, only_run_queries: bool = True) -> Any:
+def make_yielding(store: Any, only_run_queries: bool = True, ticks: bool = False) -> Any:
     """Model a network-backed store (Postgres, agent-data): ``query`` really suspends.  The read happens first (a
     snapshot of the row), then the coroutine waits at a harness gate before it returns - so other tasks can run
     between a component's read of the handler row and whatever it does next.  Gates are released by the explorer;
@@ -181,4 +181,17 @@ def make_yielding(store: Any, only_run_queries: bool = True) -> Any:
         return res
 
     store.query = query
+    if ticks:
+        # reading the tick log suspends as well: the first page is read, then the reader waits at a gate
+        orig_stream = store.stream_ticks
+
+        async def stream_ticks(run_id: str) -> Any:
+            first = True
+            async for t in orig_stream(run_id):
+                if first:
+                    first = False
+                    await gate("store.ticks")
+                yield t
+
+        store.stream_ticks = stream_ticks
     return store
